@@ -821,6 +821,59 @@ func c08Directed(t *testing.T, st *VStream, stats *VStats, log *logrus.Logger) {
 	})
 }
 
+// c08Findings replays three scenarios whose outcome the check script inspects (see checks/c08.py);
+// each is bracketed by `note` lines.  The model mirrors the code on all of them.
+func c08Findings(t *testing.T, st *VStream, stats *VStats, log *logrus.Logger) {
+	r0 := c08Routes()[0]
+	// (a) fixed_domain_ttl and the case of the question name
+	synctest.Test(t, func(t *testing.T) {
+		w := &c08World{log: log, st: st, stats: stats}
+		st.Emit("note fixed-ttl-case begin", "note")
+		w.cfg(c08Cfg{opt: false, stale: 60, fixed: map[string]int{"ddns.example.org": 10}})
+		defer func() { _ = w.c.Close() }()
+		t0 := time.Now().UnixNano()
+		for i, qn := range []string{"ddns.example.org.", "DDNS.Example.org."} {
+			key := w.realKey(qn, 1, r0)
+			at := t0 + int64(i)*100*c08Sec
+			w.insn(at, key, qn, 1, 3600, 50+i, 1, 0, 0) // upstream says 3600 s, the configuration says 10 s
+			w.look(at+9*c08Sec, w.realKey("ddns.example.org", 1, r0), "ddns.example.org", 1, false)
+			w.look(at+11*c08Sec, w.realKey("ddns.example.org", 1, r0), "ddns.example.org", 1, false)
+		}
+		st.Emit("note fixed-ttl-case end", "note")
+	})
+	// (b) LRU order after a background refresh re-inserted the most recently used name
+	synctest.Test(t, func(t *testing.T) {
+		w := &c08World{log: log, st: st, stats: stats}
+		st.Emit("note lru-after-refresh begin", "note")
+		w.cfg(c08Cfg{opt: true, stale: 0, max: 1})
+		defer func() { _ = w.c.Close() }()
+		t0 := time.Now().UnixNano()
+		ka, kb := w.realKey("a.test", 1, r0), w.realKey("b.test", 1, r0)
+		w.insn(t0, ka, "a.test.", 1, 1, 1, 1, 0, 0)
+		w.insn(t0, kb, "b.test.", 1, 1000, 2, 1, 0, 0)
+		w.look(t0+1*c08Sec-1, kb, "b.test", 1, false) // b used at +1 s
+		w.look(t0+5*c08Sec, ka, "a.test", 1, false)   // a used at +5 s: stale, refresh requested
+		w.insn(t0+5*c08Sec+1000, ka, "a.test.", 1, 1000, 3, 1, 0, 0) // the refresh stores the new answer
+		w.jan(t0 + 6*c08Sec)                                       // size limit 1: who goes?
+		w.emitKeys()
+		st.Emit("note lru-after-refresh end", "note")
+	})
+	// (c) a background refresh that fails while the entry is inside its stale window
+	synctest.Test(t, func(t *testing.T) {
+		w := &c08World{log: log, st: st, stats: stats}
+		st.Emit("note failed-refresh begin", "note")
+		w.cfg(c08Cfg{opt: true, stale: 60})
+		defer func() { _ = w.c.Close() }()
+		t0 := time.Now().UnixNano()
+		ka := w.realKey("a.test", 1, r0)
+		w.insn(t0, ka, "a.test.", 1, 5, 1, 1, 0, 0)
+		w.look(t0+10*c08Sec, ka, "a.test", 1, false) // stale, refresh requested
+		w.rdone(t0+11*c08Sec, ka, "a.test", 1)       // the refresh ends without a new answer
+		w.look(t0+12*c08Sec, ka, "a.test", 1, false) // still inside the 60 s window
+		st.Emit("note failed-refresh end", "note")
+	})
+}
+
 func c08HeapStream(r *VRand, st *VStream, stats *VStats, n int) {
 	for it := 0; it < n; it++ {
 		sz := r.Intn(14)
@@ -900,6 +953,7 @@ func TestVerifC08(t *testing.T) {
 	})
 	c08HeapStream(r.Fork(), st, stats, nHeap)
 	c08Directed(t, st, stats, log)
+	c08Findings(t, st, stats, log)
 	for i := 0; i < nHist; i++ {
 		n := nOps
 		if i%10 == 0 {
